@@ -30,7 +30,7 @@ func init() {
 		mutant{"second close frame after a local close", "codec/websocket/stream.go",
 			"\tif err != nil && s.state == StateActive {\n\t\t// Only start", "\tif err != nil {\n\t\t// Only start", "C08-R"},
 		mutant{"close can be started twice", "codec/websocket/stream.go",
-			"func (s *Stream) Close(cc CloseCode, reason string) error {\n\tswitch s.state {\n\tcase StateActive:", "func (s *Stream) Close(cc CloseCode, reason string) error {\n\tswitch s.state {\n\tcase StateActive, StateClosedByUs:", "C08-R"},
+			"func (s *Stream) Close(cc CloseCode, reason string) error {\n\tswitch s.state {\n\tcase StateActive:", "func (s *Stream) Close(cc CloseCode, reason string) error {\n\tif s.state == StateClosedByUs {\n\t\ts.prepareClose(EncodeCloseFramePayload(cc, reason))\n\t\treturn s.Flush()\n\t}\n\tswitch s.state {\n\tcase StateActive:", "C08-R"},
 		mutant{"pong answered while closing", "codec/websocket/stream.go",
 			"\tcase OpcodePing:\n\t\tif s.state == StateActive {", "\tcase OpcodePing:\n\t\tif s.state != StateTerminated {", "C08-R3"},
 		mutant{"pongs are answered", "codec/websocket/stream.go",
